@@ -29,6 +29,41 @@ class _Count(logging.Handler):
         self.n += 1
 
 
+class _Collector(list):
+    """a callable error collector that is falsy while empty (a list of errors with __call__)"""
+
+    __call__ = list.append
+
+
+class _Bound:
+    def __init__(self, sink):
+        self.sink = sink
+
+    def handle(self, err):
+        self.sink.append(err)
+
+
+def make_handler(kind, calls):
+    if kind == "collector":
+        c = _Collector()
+        c.calls = calls
+        _orig = c.append
+
+        def app(err, _c=c):
+            calls.append(err)
+
+        # the object itself is the handler; record through a subclass hook
+        class C(_Collector):
+            def __call__(self, err):
+                calls.append(err)
+                list.append(self, err)
+
+        return C()
+    if kind == "bound-method":
+        return _Bound(calls).handle
+    return lambda err: calls.append(err)
+
+
 def o_damage(case):
     from pyrtcm import RTCMReader
     from pyrtcm.exceptions import RTCMParseError
@@ -45,7 +80,7 @@ def o_damage(case):
     expect_events = [("ok", bytes.fromhex(i["b"])) if i["k"] == "frame" else ("err", None) for i in items]
     mode = case["mode"]
     calls = []
-    handler = (lambda err: calls.append(err)) if mode in ("ignore", "log-handler", "raise") else None
+    handler = make_handler(case.get("handler", "function"), calls) if mode in ("ignore", "log-handler", "raise") else None
     qoe = {"ignore": 0, "log-handler": 1, "log-nohandler": 1, "raise": 2}[mode]
     counter = _Count()
     lg = logging.getLogger("pyrtcm.rtcmreader")
@@ -107,16 +142,43 @@ def o_damage(case):
     for i in items:
         if i["k"] == "damaged":
             cls.append("damage-in-" + i["where"])
+    if case.get("long_run"):
+        cls.append("long-run-of-damaged-frames")
+    if any(i["k"] == "damaged" and i.get("syncy_payload") for i in items):
+        cls.append("damaged-frame-with-sync-like-payload")
+    cls.append("handler-" + case.get("handler", "function"))
     return Res(nontrivial=sandwiched, classes=sorted(set(cls)))
 
 
 @st.composite
 def s_damage(draw, tier):
     items = draw(st.lists(st.one_of(streams.frames("small"), streams.frames("small"), streams.damaged_frames("small")), min_size=1, max_size=10))
-    return {"items": items, "mode": draw(st.sampled_from(["ignore", "log-handler", "log-nohandler", "raise"]))}
+    return {"items": items, "mode": draw(st.sampled_from(["ignore", "log-handler", "log-nohandler", "raise"])), "handler": draw(st.sampled_from(["function", "collector", "bound-method"]))}
+
+
+def e_runs(tier, shard, nshards):
+    """long runs of consecutive damaged frames between good ones (a damaged frame must cost exactly that frame however many there are)"""
+    from pv import framing as fr
+
+    good = fr.build_frame(bytes([0xFE, 0x80, 0x01, 0x02]))
+    k = 0
+    for run in ([50, 1200] if tier == "quick" else [50, 400, 1200, 3000, 10000]):
+        for mode in ("ignore", "log-handler", "log-nohandler", "raise"):
+            k += 1
+            if k % nshards != shard:
+                continue
+            items = [{"k": "frame", "b": good.hex()}]
+            for j in range(run):
+                f = fr.build_frame(bytes([0xFE, 0x80, j & 0xFF, (j >> 8) & 0xFF]))
+                d = fr.flip_bits(f, [24 + (j % (len(f) * 8 - 24))])
+                items.append({"k": "damaged", "b": d.hex(), "where": "crc" if 24 + (j % (len(f) * 8 - 24)) >= len(f) * 8 - 24 else "payload"})
+            items.append({"k": "frame", "b": good.hex()})
+            yield {"items": items, "mode": mode, "handler": "function", "long_run": run}
 
 
 def _sample(c):
+    if c.get("long_run"):
+        return {"long_run": c["long_run"], "mode": c["mode"], "items": "good frame, long_run single-bit-damaged 4-byte frames, good frame"}
     return {k: (v if k != "items" else [{**i, "b": i["b"][:40] + ("..." if len(i["b"]) > 40 else "")} for i in v]) for k, v in c.items()}
 
 
@@ -125,9 +187,10 @@ SUBS = [
         "damaged_streams",
         o_damage,
         strategy=s_damage,
+        enum=e_runs,
         examples=(250, 5000),
         rule="see property rule",
-        need={"damage-in-crc": 1, "damage-in-payload": 1, "damage-in-straddle": 1, "adjacent-damaged": 1, "raise": 1, "log-nohandler": 1},
+        need={"damaged-frame-with-sync-like-payload": 1, "long-run-of-damaged-frames": 1, "handler-collector": 1, "damage-in-crc": 1, "damage-in-payload": 1, "damage-in-straddle": 1, "adjacent-damaged": 1, "raise": 1, "log-nohandler": 1},
         sample=_sample,
     ),
 ]
